@@ -24,6 +24,11 @@ def iter (st : Store) (o : Opts) : String := showEntries (st.iterate o)
 def step (st : Store) (line : String) : Store × String :=
   match line.splitOn " " with
   | ["new"] => (SubStore.new, "ok")
+  -- redis wrapper (drive_substore redis): `fault` arms a failure of the next redis command; the stream marks the mutating op
+  -- that runs into it `failed …`: it reports an error and changes nothing; a store reloaded from redis equals the live one
+  | ["fault"] => (st, "ok")
+  | "failed" :: _ => (st, "err")
+  | ["reload"] => (st, "same")
   | ["sub", c, share, filter, qos, nl, rap, rh, id] =>
     let s : Sub := { share := undash share, filter := str filter, qos := natOf qos % 256, nl := nl == "1", rap := rap == "1",
                      rh := natOf rh % 256, id := natOf id % 4294967296 }
